@@ -405,6 +405,77 @@ def run(ctx):
             else:
                 ctx.ok('R-CALSRC', what, wgt_, "read from self.variables['time'] before any re-binding of %s" % obj)
     ctx.floor('calendar / units reads judged by R-CALSRC', ncal, 2)
+    # ---- R-TIMEPREC: the offsets of the CF time branch of getTimes are not narrowed to 4-byte numbers before they become timedeltas
+    ctx.rule('R-TIMEPREC', 'getTimes (CF time): the stored offsets are not converted to a 4-byte type (float32 keeps about 7 digits: seconds since 1970 lose minutes)')
+    NARROW = ("'f'", "'f4'", "'>f'", "'<f'", "'>f4'", "'<f4'", "'float32'", 'np.float32', 'numpy.float32', "'i'", "'i4'", "'int32'", 'np.int32', "'>i'", "'<i'", "'e'", "'float16'", 'np.float16')
+    narrowed = []
+    for c in ast.walk(gt_):
+        if not isinstance(c, ast.Call):
+            continue
+        dn = (dotted(c.func) or '').split('.')[-1]
+        tgt = None
+        if dn in ('array', 'asarray', 'asanyarray') and c.args and kw(c, 'dtype') is not None and norm(kw(c, 'dtype')) in NARROW:
+            tgt = c.args[0]
+        elif isinstance(c.func, ast.Attribute) and c.func.attr == 'astype' and c.args and norm(c.args[0]) in NARROW:
+            tgt = c.func.value
+        if tgt is not None and any(isinstance(n_, ast.Name) and n_.id in ('time', 'times', 'offsets') for n_ in ast.walk(tgt)):
+            narrowed.append(c)
+    if narrowed:
+        ctx.violation(Finding('R-TIMEPREC', FILES, 'PseudoNetCDFFile.getTimes', api.stmt_of(narrowed[0]), 'the time offsets pass through %s: a 4-byte type keeps about 7 significant digits, so 15-minute data stored as '
+                              'seconds since 1970 decodes up to a minute off and 1-minute data collapses onto repeated instants' % norm(narrowed[0])[:50]))
+    else:
+        ctx.ok('R-TIMEPREC', 'getTimes', wgt_, 'no conversion of the time values to a 4-byte type')
+    # ---- R-HMSALL: every part split off HHMMSS (hours, minutes, seconds) reaches the decoded time
+    ctx.rule('R-HMSALL', 'getTimes (TFLAG branch): hours, minutes and seconds split from HHMMSS are all used for the decoded time')
+    parts = {}
+    for st in iter_stmts(gt_.body):
+        if isinstance(st, ast.Assign) and len(st.targets) == 1 and isinstance(st.targets[0], ast.Name) and st.targets[0].id in ('hours', 'minutes', 'seconds', 'hour', 'minute', 'second'):
+            parts[st.targets[0].id] = st
+    unused = []
+    for nm_, st_ in sorted(parts.items()):
+        reads = [n_ for n_ in ast.walk(gt_) if isinstance(n_, ast.Name) and n_.id == nm_ and isinstance(n_.ctx, ast.Load)]
+        real = []
+        for r_ in reads:
+            # a read that only feeds a zip(...) whose matching loop variable is never read does not count
+            par = getattr(r_, '_parent', None)
+            if isinstance(par, ast.Call) and dotted(par.func) == 'zip':
+                comp = getattr(par, '_parent', None)
+                if isinstance(comp, ast.comprehension) and isinstance(comp.target, ast.Tuple) and r_ in par.args:
+                    tv = comp.target.elts[par.args.index(r_)] if par.args.index(r_) < len(comp.target.elts) else None
+                    owner = getattr(comp, '_parent', None)
+                    if isinstance(tv, ast.Name) and owner is not None and not any(isinstance(x, ast.Name) and x.id == tv.id and isinstance(x.ctx, ast.Load) for x in ast.walk(owner)):
+                        continue
+            real.append(r_)
+        if not real:
+            unused.append((nm_, st_))
+    if len(parts) < 3:
+        ctx.undec('R-HMSALL', 'TFLAG branch', wgt_, 'the split of HHMMSS into three parts was not found (%s)' % sorted(parts))
+    elif unused:
+        ctx.violation(Finding('R-HMSALL', FILES, 'PseudoNetCDFFile.getTimes', unused[0][1], '%s is split off HHMMSS but never used for the decoded time: flags with a non-zero %s field are truncated' % (unused[0][0], unused[0][0])))
+    else:
+        ctx.ok('R-HMSALL', 'TFLAG branch', wgt_, 'hours, minutes and seconds all used')
+    # ---- R-TIMESTORE: add_time_variable stores the synthesised values whether or not the variable existed
+    ctx.rule('R-TIMESTORE', 'add_time_variable: the synthesised time values are stored on every path (also when the variable already exists)')
+    atv2 = ctx.src.mod('conventions/ioapi/_ioapi.py').func('add_time_variable')
+    wat = 'src/PseudoNetCDF/conventions/ioapi/_ioapi.py add_time_variable'
+    from .. import paths as _p12
+    nst, badst = 0, None
+    for pth in _p12.enumerate_paths(atv2.body, limit=20000):
+        if pth.exit[0] == 'raise':
+            continue
+        nst += 1
+        stores = [st for st in pth.stmts if isinstance(st, ast.Assign) and isinstance(st.targets[0], ast.Subscript) and isinstance(st.targets[0].value, ast.Name)
+                  and isinstance(st.value, ast.Name) and st.value.id in ('time', 'times')]
+        if not stores:
+            badst = badst or pth
+    if nst == 0:
+        ctx.undec('R-TIMESTORE', 'store', wat, 'no path enumerated')
+    elif badst is not None:
+        conds = [norm(x[1])[:40] + ('' if x[2] else ' is false') for x in badst.items if x[0] == 'cond'][-2:]
+        ctx.violation(Finding('R-TIMESTORE', 'conventions/ioapi/_ioapi.py', 'add_time_variable', atv2.body[-1], 'on the path with %s the synthesised values are not stored: a time variable that already exists keeps its old '
+                              'values, and getTimes (which prefers it) keeps decoding the old instants' % (' / '.join(conds) or 'no condition')))
+    else:
+        ctx.ok('R-TIMESTORE', 'store', wat, 'values stored on all %d paths' % nst)
     # ---- R-FENCEPOST: a mean step is (last - first) / (count - 1)
     ctx.rule('R-FENCEPOST', '(x[-1] - x[0]) is divided by the number of intervals, len(x) - 1')
     nfp = 0
